@@ -1086,6 +1086,12 @@ func (s *State) eqVal(a, b Val) Term {
 		// identity equality (used for frames); Go only allows == nil
 		if y, ok := b.(SliceV); ok {
 			if x.Arr != y.Arr {
+				// two slices loaded from container elements: the same array exactly when their references agree
+				rx, okx := s.objRef[x.Arr]
+				ry, oky := s.objRef[y.Arr]
+				if okx && oky && x.Off.S == "0" && y.Off.S == "0" {
+					return tAnd(tEq(rx, ry), tEq(x.Len, y.Len))
+				}
 				return tAnd(x.Nil, y.Nil)
 			}
 			return tAnd(tEq(x.Off, y.Off), tEq(x.Len, y.Len), tEq(x.Cap, y.Cap), tEq(x.Nil, y.Nil))
